@@ -159,11 +159,12 @@ def ob_effect_predicate(r, tier, seed, depth):
 
 
 # ----------------------------------------------------------------------------- O9.3 ANF names effects in source order, exactly once, respecting short-circuit and branches
+from mirsym.engine import UNIT as UNIT_
 class LiftGen:
     """lazily chosen Lift-IR expressions; alongside each expression the *source* effect trace is built:
     trace = list of events; event = ('call', f) | ('if', then_trace, else_trace) | ('while', cond_trace, body_trace)"""
     def __init__(s, W, ex, forms):
-        tt = W.tt; s.ex = ex; s.forms = forms; s.n = 0
+        tt = W.tt; s.W = W; s.ex = ex; s.forms = forms; s.n = 0
         s.LE = tt.find_adt(['lift', 'LiftExpr'], 'compiler'); s.TY = tt.find_adt(['tast', 'Ty'], 'compiler'); s.PR = tt.find_adt(['common', 'Prim'], 'compiler')
         s.BOP = tt.find_adt(['common_defs', 'BinaryOp'], 'common_defs'); s.UOP = tt.find_adt(['common_defs', 'UnaryOp'], 'common_defs')
     def ty(s, n, *f): return Agg(s.TY.key, s.TY.vindex(n), list(f))
@@ -192,7 +193,7 @@ class LiftGen:
     def expr(s, depth):
         """int-typed expression + trace"""
         s.n += 1; me = s.n
-        opts = ['var', 'call0'] + ([f for f in ('call1', 'call2', 'callcall', 'add', 'if', 'let', 'tuple', 'while') if f in s.forms] if depth > 0 else [])
+        opts = ['var', 'call0'] + ([f for f in ('call1', 'call2', 'callcall', 'add', 'if', 'let', 'tuple', 'while', 'whilematch', 'unitop') if f in s.forms] if depth > 0 else [])
         k = s.ex.choose([(True, o) for o in opts])
         if k == 'var': return s.var('v%d' % me), []
         if k == 'call0': return s.call('g%d' % me, []), [('call', 'g%d' % me)]
@@ -213,12 +214,34 @@ class LiftGen:
             a, ta = s.expr(depth - 1); b, tb = s.expr(depth - 1)
             tup = s.L('ETuple', items=PyVec([a, b]), ty=s.ty('TTuple', PyVec([s.ty('TInt32'), s.ty('TInt32')])))
             return s.L('EProj', tuple=mkbox(tup), index=0, ty=s.ty('TInt32')), ta + tb
+        if k == 'unitop':
+            # a unit-typed operand that runs code, next to an int operand: (U, b).1 with U among let-in-unit / if-unit / while / unit call
+            a, ta = s.expr(depth - 1); b, tb = s.expr(depth - 1); unit = s.L('EPrim', value=Agg(s.PR.key, s.PR.vindex('Unit'), [UNIT_]), ty=s.ty('TUnit'))
+            uk = s.ex.choose([(True, o) for o in ('let', 'if', 'while', 'call')])
+            if uk == 'let': u = s.L('ELet', name=mkstr('u%d' % me), value=mkbox(a), body=mkbox(unit), ty=s.ty('TUnit')); tu = ta
+            elif uk == 'if':
+                c, tc = s.boolean(0); u = s.L('EIf', cond=mkbox(c), then_branch=mkbox(s.L('ELet', name=mkstr('u%d' % me), value=mkbox(a), body=mkbox(unit), ty=s.ty('TUnit'))), else_branch=mkbox(unit), ty=s.ty('TUnit')); tu = tc + [('if', ta, [])]
+            elif uk == 'while':
+                c, tc = s.boolean(0); u = s.L('EWhile', cond=mkbox(c), body=mkbox(a), ty=s.ty('TUnit')); tu = [('while', tc, ta)]
+            else: u = s.call('k%d' % me, [a], 'TUnit'); tu = ta + [('call', 'k%d' % me)]
+            tup = s.L('ETuple', items=PyVec([u, b]), ty=s.ty('TTuple', PyVec([s.ty('TUnit'), s.ty('TInt32')])))
+            return s.L('EProj', tuple=mkbox(tup), index=1, ty=s.ty('TInt32')), tu + tb
         if k == 'if':
             c, tc = s.boolean(depth - 1); a, ta = s.expr(depth - 1); b, tb = s.expr(depth - 1)
             return s.L('EIf', cond=mkbox(c), then_branch=mkbox(a), else_branch=mkbox(b), ty=s.ty('TInt32')), tc + [('if', ta, tb)]
         if k == 'let':
             a, ta = s.expr(depth - 1); b, tb = s.expr(depth - 1)
             return s.L('ELet', name=mkstr('x%d' % me), value=mkbox(a), body=mkbox(b), ty=s.ty('TInt32')), ta + tb
+        if k == 'whilematch':
+            # while match <int> { 0 => false, _ => true } { body }: the `false` arm must end the loop
+            LA = s.W.tt.find_adt(['lift', 'LiftArm'], 'compiler')
+            sc, tsc = s.expr(depth - 1); b, tb = s.expr(depth - 1)
+            lit = lambda v: s.L('EPrim', value=Agg(s.PR.key, s.PR.vindex('Bool'), [v]), ty=s.ty('TBool'))
+            zero = s.L('EPrim', value=Agg(s.PR.key, s.PR.vindex('Int32'), [0]), ty=s.ty('TInt32'))
+            first = s.ex.choose([(True, False), (True, True)])
+            c = s.L('EMatch', expr=mkbox(sc), arms=PyVec([Agg(LA.key, 0, [zero, lit(first)])]), default=ms.some(mkbox(lit(not first))), ty=s.ty('TBool'))
+            w = s.L('EWhile', cond=mkbox(c), body=mkbox(b), ty=s.ty('TUnit'))
+            return s.L('ELet', name=mkstr('w%d' % me), value=mkbox(w), body=mkbox(s.var('v%d' % me)), ty=s.ty('TInt32')), [('while', tsc, tb)]
         if k == 'while':
             c, tc = s.boolean(depth - 1); b, tb = s.expr(depth - 1)
             w = s.L('EWhile', cond=mkbox(c), body=mkbox(b), ty=s.ty('TUnit'))
@@ -253,6 +276,9 @@ def norm_trace(t):
             a, b = norm_trace(e[1]), norm_trace(e[2])
             if a or b: out.append(('if', a, b))
         elif e[0] == 'while': out.append(('while', norm_trace(e[1]), norm_trace(e[2])))
+        elif e[0] == 'match':
+            arms = [norm_trace(a) for a in e[1]]; d = norm_trace(e[2]) if e[2] is not None else None
+            if any(arms) or d: out.append(('match', arms, d))
         else: out.append(e)
     return out
 
@@ -316,8 +342,8 @@ def ob_anf_order(r, tier, seed, depth, forms, top):
 class GoGen:
     """lazily chosen straight-line / branching Go blocks over variables {a, b} (+ parameter p); well-formed by construction:
     a variable is read only after it has been declared, assigned only after it has been declared"""
-    def __init__(s, W, ex, forms=('atom', 'call', 'add', 'div')):
-        tt = W.tt; s.ex = ex; s.n = 0; s.forms = forms
+    def __init__(s, W, ex, forms=('atom', 'call', 'add', 'div'), conds=('less',), branch_n=1):
+        tt = W.tt; s.ex = ex; s.n = 0; s.forms = forms; s.conds = conds; s.branch_n = branch_n
         s.GE = tt.find_adt(['goast', 'Expr'], 'compiler'); s.GS = tt.find_adt(['goast', 'Stmt'], 'compiler'); s.GT = tt.find_adt(['goty', 'GoType'], 'compiler')
         s.GB = tt.find_adt(['goast', 'GoBinaryOp'], 'compiler'); s.BL = tt.find_adt(['goast', 'Block'], 'compiler')
     def T(s, n='TInt32'): return Agg(s.GT.key, s.GT.vindex(n), [])
@@ -355,9 +381,11 @@ class GoGen:
             s.n += 1
             fty = Agg(s.GT.key, s.GT.vindex('TFunc'), [PyVec([s.T()]), mkbox(s.T('TUnit'))])
             return s.S('Expr', **{s.GS.variants[s.GS.vindex('Expr')].fields[0][0] if s.GS.variants[s.GS.vindex('Expr')].fields[0][0] else '0': None}) if False else Agg(s.GS.key, s.GS.vindex('Expr'), [s.E('Call', func=mkbox(s.E('Var', name=mkstr('g%d' % s.n), ty=fty)), args=PyVec([s.atom(declared)]), ty=s.T('TUnit'))])
-        cond = s.E('BinaryOp', op=Agg(s.GB.key, s.GB.vindex('Less'), []), lhs=mkbox(s.atom(declared)), rhs=mkbox(s.atom(declared)), ty=s.T('TBool'))
-        d1 = list(declared); then = s.block(d1, 1, 'branch', inner=True)
-        d2 = list(declared); els = s.block(d2, 1, 'branch', inner=True)
+        ck = s.ex.choose([(True, o) for o in s.conds]) if len(s.conds) > 1 else s.conds[0]
+        if ck == 'less': cond = s.E('BinaryOp', op=Agg(s.GB.key, s.GB.vindex('Less'), []), lhs=mkbox(s.atom(declared)), rhs=mkbox(s.atom(declared)), ty=s.T('TBool'))
+        else: cond = s.E('Bool', value=(ck == 'true'), ty=s.T('TBool'))
+        d1 = list(declared); then = s.block(d1, s.branch_n, 'branch', inner=True)
+        d2 = list(declared); els = s.block(d2, s.branch_n, 'branch', inner=True)
         return s.S('If', cond=cond, then=then, else_=ms.some(els))
     def block(s, declared, n, depth, inner=False):
         return Agg(s.BL.key, 0, [PyVec([s.stmt(declared, depth) for _ in range(n)])])
@@ -375,6 +403,7 @@ class GoEval:
             if k not in env: raise UseBeforeDecl(k)
             return env[k]
         if n == 'Int': return ('int', ms.pystr(f['value']))
+        if n == 'Bool': return ('bool', bool(f['value']))
         if n == 'Call':
             fn = ms.pystr(unbox(f['func']).fields[0]); args = tuple(s.term(a, env, trace) for a in f['args'].items)
             trace.append(('call', fn, args)); return ('result', fn, args)
@@ -401,6 +430,11 @@ class GoEval:
                 trace.append(('ret', s.term(f['expr'].fields[0], env, trace) if f['expr'].idx == 1 else None)); return
             elif n == 'If':
                 c = s.term(f['cond'], env, trace)
+                if c[0] == 'bool':
+                    # a constant condition: the statement *is* its taken branch (a compiler may fold it); branches declare nothing
+                    taken = f['then'] if c[1] else (f['else_'].fields[0] if f['else_'].idx == 1 else None)
+                    if taken is not None: s.block(taken, env, trace)
+                    continue
                 e1 = dict(env); t1 = []; s.block(f['then'], e1, t1)
                 e2 = dict(env); t2 = []
                 if f['else_'].idx == 1: s.block(f['else_'].fields[0], e2, t2)
@@ -413,12 +447,12 @@ class GoEval:
 
 class UseBeforeDecl(Exception): pass
 
-def ob_block_dce(r, tier, seed, nstmts, depth, forms=('atom', 'call', 'add', 'div')):
+def ob_block_dce(r, tier, seed, nstmts, depth, forms=('atom', 'call', 'add', 'div'), conds=('less',), branch_n=1):
     W = e2.fresh_world(CRATES)
-    r.bounds = 'Go blocks of %d statements (+ final `return <var>`) over {VarDecl, Assignment, call statement%s}, variables {a, b} and parameter p, initialisers among atom / call / + / integer division; nothing live afterwards' % (nstmts, ', if/else with 1-statement branches' if depth else '')
+    r.bounds = 'Go blocks of %d statements (+ final `return <var>`) over {VarDecl, Assignment, call statement%s}, variables {a, b} and parameter p, initialisers among atom / call / + / integer division; nothing live afterwards' % (nstmts, ', if/else with %d-statement branches, condition among %s' % (branch_n, list(conds)) if depth else '')
     r.assumptions = ['inputs are well-formed Go by construction (declared before use)', 'an assignment `x = e` never reads x itself: goml has no mutable locals, emitted temporaries are assigned once per path (a kernel counterexample `var a = p; a = a; return a` exists - dce drops the initialiser - but no goml program produces that shape)', 'oracle: translation validation with uninterpreted calls - the sequence of calls (with argument terms), of possibly-failing integer divisions and of branch events, and the returned term, must be identical before and after DCE; every variable read or assigned in the output must be declared there']
     def entry(ex):
-        g = GoGen(W, ex, forms); declared = ['p']
+        g = GoGen(W, ex, forms, conds, branch_n); declared = ['p']
         blk = g.block(declared, nstmts, 0)
         if depth: blk.fields[0].items.append(g.stmt(declared, 'if'))
         ret = ex.choose([(True, v) for v in declared])
@@ -462,6 +496,7 @@ def describe_block(g, b):
         n = GE.variants[e.idx].name; f = dict(zip([x[0] for x in GE.variants[e.idx].fields], e.fields))
         if n == 'Var': return ms.pystr(f['name'])
         if n == 'Int': return ms.pystr(f['value'])
+        if n == 'Bool': return 'true' if f['value'] else 'false'
         if n == 'Call': return '%s(%s)' % (ex_(f['func']), ', '.join(ex_(a) for a in f['args'].items))
         if n == 'BinaryOp': return '%s %s %s' % (ex_(f['lhs']), {'Add': '+', 'Div': '/', 'Less': '<'}.get(g.GB.variants[f['op'].idx].name, '?'), ex_(f['rhs']))
         return n
@@ -477,7 +512,7 @@ def describe_block(g, b):
     return '; '.join(out)
 
 # ----------------------------------------------------------------------------- O9.4 Go lowering keeps the ANF trace (chain: Lift -> real anf_file -> real compile_fn -> Go)
-def go_trace(W, g, stmts, env=None):
+def go_trace(W, g, stmts, env=None, in_switch=False):
     """structural effect trace of emitted Go statements: calls by callee name, if/else as conditional sub-traces, a `for { ..; if !c { break }; .. }` loop as
     ('while', trace before the exit test, trace after it)"""
     GS, GE = g.GS, g.GE
@@ -509,14 +544,21 @@ def go_trace(W, g, stmts, env=None):
             if f['expr'].idx == 1: calls(f['expr'].fields[0], out)
         elif n == 'If':
             calls(f['cond'], out)
-            out.append(('if', go_trace(W, g, f['then'].fields[0].items), go_trace(W, g, f['else_'].fields[0].fields[0].items) if f['else_'].idx == 1 else []))
+            out.append(('if', go_trace(W, g, f['then'].fields[0].items, None, in_switch), go_trace(W, g, f['else_'].fields[0].fields[0].items, None, in_switch) if f['else_'].idx == 1 else []))
         elif n == 'Loop':
             body = f['body'].fields[0].items; cut = None
             for i, b in enumerate(body):
                 if GS.variants[b.idx].name == 'If' and any(GS.variants[x.idx].name == 'Break' for x in b.fields[1].fields[0].items): cut = i; break
             if cut is None: raise Unsupported('go trace: loop without an exit test')
             out.append(('while', go_trace(W, g, body[:cut]), go_trace(W, g, body[cut + 1:])))
-        elif n == 'Break': pass
+        elif n == 'Break':
+            # goml has no `break`: every emitted one is meant to leave the enclosing `for`; inside a switch clause Go leaves only the switch
+            if in_switch: out.append(('break-inside-switch-does-not-leave-the-loop',))
+        elif n == 'SwitchExpr':
+            calls(f['expr'], out)
+            arms = [go_trace(W, g, cb.fields[1].fields[0].items, None, True) for cb in f['cases'].items]
+            d = go_trace(W, g, f['default'].fields[0].fields[0].items, None, True) if f['default'].idx == 1 else None
+            out.append(('match', arms, d))
         elif n == 'Go': out.append(('go',))
         else: raise Unsupported('go trace: statement ' + n)
     return out
@@ -561,14 +603,15 @@ def ob_go_lowering(r, tier, seed, depth, forms, top):
 def obligations():
     obs = [Ob('O9.1-effect-predicate-d1', 'DCE effect predicate is sound, depth 1', ob_effect_predicate, ('quick', 'thorough'), 2, dict(depth=1)),
            Ob('O9.1-effect-predicate-d2', 'DCE effect predicate is sound, depth 2', ob_effect_predicate, ('quick', 'thorough'), 10, dict(depth=2))]
-    obs += [Ob('O9.3-anf-order-call-d1', 'ANF keeps the source effect trace: f(A1, A2), depth 1', ob_anf_order, ('quick', 'thorough'), 3, dict(depth=1, forms=['call1', 'call2', 'callcall', 'add', 'if', 'let', 'tuple', 'while', 'and', 'or', 'not', 'less'], top='call')),
+    obs += [Ob('O9.3-anf-order-call-d1', 'ANF keeps the source effect trace: f(A1, A2), depth 1', ob_anf_order, ('quick', 'thorough'), 3, dict(depth=1, forms=['call1', 'call2', 'callcall', 'add', 'if', 'let', 'tuple', 'while', 'whilematch', 'unitop', 'and', 'or', 'not', 'less'], top='call')),
             Ob('O9.3-anf-order-bool-d1', 'ANF keeps short-circuit evaluation of && / ||', ob_anf_order, ('quick', 'thorough'), 3, dict(depth=1, forms=['and', 'or', 'not', 'less', 'call1'], top='bool')),
             Ob('O9.3-anf-order-call-d2', 'ANF keeps the source effect trace: f(A1, A2), depth 2', ob_anf_order, ('thorough',), 100, dict(depth=2, forms=['call1', 'callcall', 'add', 'if', 'let', 'and', 'or'], top='call'))]
     obs += [Ob('O9.2-block-dce-2', 'block-level DCE preserves effects and the returned value: 2 statements + return', ob_block_dce, ('quick', 'thorough'), 3, dict(nstmts=2, depth=0)),
             Ob('O9.2-block-dce-3', 'block-level DCE: 3 statements + return', ob_block_dce, ('thorough',), 20, dict(nstmts=3, depth=0)),
             Ob('O9.2-block-dce-if', 'block-level DCE: 1 statement, then if/else with one assignment or call per branch, + return', ob_block_dce, ('quick', 'thorough'), 20, dict(nstmts=1, depth=1, forms=('atom', 'call', 'div'))),
+            Ob('O9.2-block-dce-constif', 'block-level DCE: 1 statement, then if/else with a literal condition and 2 statements per branch, + return', ob_block_dce, ('quick', 'thorough'), 30, dict(nstmts=1, depth=1, forms=('call',), conds=('true', 'false'), branch_n=2)),
             Ob('O9.2-block-dce-if2', 'block-level DCE: 2 statements, then if/else, + return', ob_block_dce, ('thorough',), 200, dict(nstmts=2, depth=1, forms=('atom', 'call')))]
-    obs += [Ob('O9.4-go-lowering-call-d1', 'Go lowering keeps the effect trace: f(A1, A2), depth 1 (incl. while / if / let)', ob_go_lowering, ('quick', 'thorough'), 10, dict(depth=1, forms=['call1', 'add', 'if', 'let', 'while', 'and', 'or', 'not', 'less'], top='call')),
+    obs += [Ob('O9.4-go-lowering-call-d1', 'Go lowering keeps the effect trace: f(A1, A2), depth 1 (incl. while / if / let)', ob_go_lowering, ('quick', 'thorough'), 10, dict(depth=1, forms=['call1', 'add', 'if', 'let', 'while', 'whilematch', 'unitop', 'and', 'or', 'not', 'less'], top='call')),
             Ob('O9.4-go-lowering-bool-d1', 'Go lowering keeps short-circuit branches', ob_go_lowering, ('quick', 'thorough'), 5, dict(depth=1, forms=['and', 'or', 'not', 'less'], top='bool'))]
     return obs
 
